@@ -31,6 +31,9 @@ def block(seq):
 
 
 def cases(rng, tier):
+    # objects built from sequence files (two per block)
+    for c in gen.file_cases(rng, 12 if tier == "quick" else 100, ['delta', 'sigma']):
+        yield c
     # the property's own queries AFTER other public calls on the same object (same answers as on a fresh one)
     for c in gen.after_calls_cases(rng, 16 if tier == "quick" else 120, ['delta', 'sigma']):
         yield c
@@ -49,5 +52,5 @@ def cases(rng, tier):
     for s in gen.large_regime():
         yield Case(block(s), {"kind": "large-regime"})
     # objects that were handed back by the library's own moves / shuffles (not built from a string) answer for the sequence they hold
-    for l in core.childq_cases(rng, 40 if tier == "quick" else 400, ["delta", "sigma", "kappa"]):
+    for l in core.childq_cases(rng, 90 if tier == "quick" else 600, ["delta", "sigma", "kappa"]):
         yield Case([l], {"kind": "object-from-move"})
